@@ -22,7 +22,7 @@ ANCHORS = ["decaylanguage.decay.viewer:DecayChainViewer._build_decay_graph", "de
 WORKERS = {"quick": 4, "thorough": 16}
 REQUIRED = {"line-without-daughters": 5, "branching-fraction-zero": 10, "table>=4-lines-distinct-bf": 20, "leaf-line-daughters-unsorted": 20, "repeated-decaying-daughter": 10, "empty-table-daughter": 10,
             "from-class-representation": 10, "evtgen-specific-name": 20, "alias-or-unknown-name": 20, "depth>=3": 10, "daughters>=5-in-ported-node": 5,
-            "graphs-in-one-process>=3": 1, "dot-accepted": 50}
+            "graphs-in-one-process>=3": 1, "same-lists-in-both-node-roles": 10, "dot-accepted": 50}
 ASSUMPTIONS = ["Graphviz `dot` and the particle package's LaTeX->HTML name conversion are trusted", "labels contain no '<' or '&' (label alphabet)",
                "the root identifier 'mother' is per graph; uniqueness across graphs is required of the per-line nodes"]
 
@@ -90,12 +90,22 @@ def actual_of(g):
                 res.append((e.get("label", ""), c, tuple(subs)))
         return res
 
+    # an edge that starts from slot pK needs a cell with PORT="pK" at position K of its tail node's label (otherwise Graphviz
+    # merely warns and attaches the edge to the node as a whole)
+    portless = []
+    for e in g.get("edges", []):
+        tp = e.get("tailport")
+        if tp:
+            attrs = re.findall(r"<TD([^>]*)>", nodes[e["tail"]].get("label", ""))
+            k = int(tp[1:]) if tp[1:].isdigit() else -1
+            if not (0 <= k < len(attrs) and f'PORT="{tp}"' in attrs[k]):
+                portless.append((nodes[e["tail"]]["name"], tp))
     roots = [o for o in nodes.values() if o["name"] == "mother"]
     if len(roots) != 1:
         return None
     root = roots[0]
     tree = tuple(sorted(rec(root["_gvid"], [None]), key=repr))
-    return tree, cells(root), len(nodes), len(g.get("edges", [])), [o["name"] for o in nodes.values()], used_edges[0]
+    return tree, cells(root), len(nodes), len(g.get("edges", [])), [o["name"] for o in nodes.values()], used_edges[0], portless
 
 
 def check(ctx, chain, workload, wit_extra=None):
@@ -124,8 +134,13 @@ def check(ctx, chain, workload, wit_extra=None):
     if act is None:
         ctx.violate("graph:no-single-root", "no unique root node 'mother'", {**wit, "dot": src})
         return
-    tree, rootcells, nn, ne, ids, used = act
+    tree, rootcells, nn, ne, ids, used, portless = act
     w = {**wit, "dot": src}
+    if portless:
+        ctx.violate("graph:edge-from-undeclared-slot", f"edges start from slots that the parent node does not declare: {portless[:4]}", w)
+    if r.stderr.strip():
+        ctx.hit("graphviz-warnings")      # recorded, not judged: a warning is not a rejection
+        ctx.note("graphviz_warning_example", r.stderr.decode(errors="replace")[:200])
     if rootcells != (html(m),):
         ctx.violate("graph:root-label", f"root cells {rootcells!r} expected {(html(m),)!r}", w)
     if nn != 1 + nlines or ne != nlines:
@@ -209,12 +224,14 @@ def run(ctx):
         if not ok:
             continue
         for m in parts[:2]:
-            S = r.choice([[], [], r.sample(parts, 1)])
-            chain = chains.ref_unfold(T, m, set(S))      # the dictionary the property quantifies over
-            real_chain = res[0].build_decay_chains(m, stable_particles=S)
-            classify(ctx, real_chain)
-            check(ctx, real_chain, "gen-parser", {"text": text, "mother": m})
-            _ = chain
+            direct = sorted({d for ln in T[m] for d in ln["fs"] if d in T})
+            # the same daughter lists once as nodes with decaying daughters and once (everything below kept stable) as plain final states
+            for S in ([], direct, r.sample(parts, 1)):
+                if S == direct and direct:
+                    ctx.hit("same-lists-in-both-node-roles")
+                real_chain = res[0].build_decay_chains(m, stable_particles=S)
+                classify(ctx, real_chain)
+                check(ctx, real_chain, "gen-parser", {"text": text, "mother": m, "stable": S})
     from decaylanguage import DecayChain, DecayMode  # noqa: PLC0415
 
     for i in range(ctx.pick(15, 150)):
